@@ -665,11 +665,28 @@ def _strip_header(b, fmt):
     return b'\n'.join(lines)
 
 
+VCF_DEFAULT_HEADER = ('##fileformat=VCFv4.1\n' + '\t'.join('#CHROM POS ID REF ALT QUAL FILTER INFO FORMAT'.split()) + '\n').encode()
+
+
+def _header_lost(case, lazy_hex, eager_hex):
+    """Exactly the listed failure mode: lazy = file header + body, eager = the same body without it
+    (headerless VCF: lazy = body, eager = default VCF header + body)."""
+    lz, eg = bytes.fromhex(lazy_hex), bytes.fromhex(eager_hex)
+    hdr = case.get('header', '').encode('latin1')
+    if hdr and lz.startswith(hdr):
+        body = lz[len(hdr):]
+        return eg == body or (case['fmt'] == 'vcf' and eg == VCF_DEFAULT_HEADER + body)
+    if not hdr and case['fmt'] == 'vcf':
+        return eg == VCF_DEFAULT_HEADER + lz
+    return False
+
+
 def _explain_steps(case, o):
-    """[(step, finding id or None)] for every step where the lazy and the eager run differ."""
+    """[(step, finding id or None)] for every step where the lazy and the eager run differ.  A step is attributed
+    to a finding only when the observation is exactly that finding's failure mode (which side fails, with which
+    exception, or which bytes differ); anything else stays unexplained."""
     fmt = case['fmt']
     fields = FORMATS[fmt]['fields']
-    nf = len(fields)
     ragged = any(k == 'str' for _, k in fields)
     if 'steps' not in o.get('lazy', {}) or 'steps' not in o.get('eager', {}):
         return [(-1, None)]
@@ -678,45 +695,41 @@ def _explain_steps(case, o):
     regs = [_Sym(len(case['recs'])), _Sym(len(case['recs']))]
     if case.get('chunk') is not None and fmt in ('fastq', 'fasta2'):
         regs[0].kind = regs[1].kind = 'eager'
-    taint = [None, None]
+    stale = [False, False]        # the lazy register missed a concatenate the eager one performed
     out = []
     for i, op in enumerate(case['prog']):
         k, r = op[0], op[1]
         a, b = L[i], E[i]
-        why = None
         if k == 'cat':
             src = [regs[j] for j in op[2]]
-            kinds = {s.kind for s in src}
-            tsrc = [taint[j] for j in op[2] if taint[j]]
-            if len(kinds) > 1:
-                why = 'C05-concat-lazy-with-materialised'
-            if 'e' in a and 'e' not in b:
-                taint[r] = taint[r] or why or (tsrc[0] if tsrc else None)
-                if a != b:
-                    out.append((i, why or taint[r]))
+            mixed = len({s.kind for s in src}) > 1
+            if a != b:
+                if mixed and a.get('e') == 'AssertionError' and 'v' in b:
+                    out.append((i, 'C05-concat-lazy-with-materialised'))
+                    stale[r] = True
+                else:
+                    out.append((i, None))
                 continue           # the lazy register keeps its old content: bookkeeping unchanged
-            if tsrc and not taint[r]:
-                taint[r] = tsrc[0]
+            if any(stale[j] for j in op[2]):
+                stale[r] = True
         diff = (a != b)
         if k == 'write' and 'v' in a and 'v' in b and not canon:
             diff = False
         if diff and k != 'cat':
-            if taint[r]:
-                why = taint[r]
-            elif k == 'at' and ragged and (('e' in a) != ('e' in b)):
+            why = None
+            if stale[r] and k in ('len', 'get', 'tolist', 'write', 'at') and 'v' in b:
+                # the two registers hold different tables since the one-sided concatenate failure
+                why = 'C05-concat-lazy-with-materialised'
+            elif k == 'at' and ragged and sorted([a.get('e', 'value'), b.get('e', 'value')]) == ['TypeError', 'value']:
                 why = 'C05-int-index-ragged-column'
-            elif k == 'write' and 'v' in a and 'e' in b and fmt == 'vcf' and case.get('header'):
+            elif k == 'write' and 'v' in a and b.get('e') == 'KeyError' and fmt == 'vcf' and case.get('header'):
                 why = 'C05-vcf-eager-write-with-header'
-            elif k == 'write' and 'e' in a and 'v' in b and fmt == 'fastq' and 2 in regs[r].setk and regs[r].kind == 'lazy':
+            elif k == 'write' and a.get('e') in ('ValueError', 'TypeError') and 'v' in b and fmt == 'fastq' and 2 in regs[r].setk \
+                    and regs[r].kind == 'lazy' and regs[r].n > 0:
                 why = 'C05-replaced-column-not-writable'
-            elif k == 'write' and 'e' in a and 'v' in b and fmt == 'vcf' and 7 in regs[r].setk:
-                why = 'C05-replaced-column-not-writable'
-            elif k == 'write' and 'v' in a and 'v' in b and (case.get('header') or fmt == 'vcf') and \
-                    _strip_header(bytes.fromhex(a['v']), fmt) == _strip_header(bytes.fromhex(b['v']), fmt):
+            elif k == 'write' and 'v' in a and 'v' in b and _header_lost(case, a['v'], b['v']):
                 why = 'C05-header-lost-on-derived-eager-table'
             out.append((i, why))
-        elif diff:
-            out.append((i, why or taint[r]))
         if 'e' not in a:
             _sym_apply(fmt, regs, op)
     return out
